@@ -10,13 +10,30 @@
 (*  url   every string up to UrlLen over { a b . / } as an Any type URL,   *)
 (*        checked against every message name of Names;                     *)
 (*  type  every message type registered in the harness binary x seeds      *)
-(*        (names exported by the harness, file named by WKT_TYPES).        *)
+(*        (names exported by the harness, file named by WKT_TYPES);        *)
+(*  box   histories of the AnyBox machine: for one representative type per *)
+(*        slot class and for the members of a suffix-name pair, every      *)
+(*        sequence  fill ; new ; [url] ; op{1..BoxOps}  repeated BoxRounds *)
+(*        times, over empty / populated / partially initialised contents,  *)
+(*        the destination's own type, its suffix partner and an unrelated  *)
+(*        type as source, all options, and the type-URL variants (no       *)
+(*        prefix, other prefixes, last segment merely ending in the name,  *)
+(*        trailing '/', empty, partner name);                              *)
+(*  sweep for EVERY registered type: empty payload into a dirty            *)
+(*        destination with and without AllowPartial / Merge, a populated   *)
+(*        payload merged into a dirty destination; for every pair of       *)
+(*        registered names where one ends in the other: each packed and    *)
+(*        offered to a destination of the other.                           *)
 (* Laws on every state: NewValue succeeds exactly on convertible values;   *)
 (* AsInterface o NewValue equals the direct definition Conv, is the        *)
 (* identity on normal forms and idempotent; encoding/json of the result    *)
 (* equals protojson of the Value whenever protojson accepts it (all        *)
 (* numbers finite); MessageIs(url, n) <=> MessageName(url) = n;            *)
-(* New ; MessageName / MessageIs round-trip.                               *)
+(* New ; MessageName / MessageIs round-trip; for every history BoxLaws:    *)
+(* UnmarshalTo without Merge leaves exactly the packed message whatever    *)
+(* the destination held, with Merge the wire fold equals proto.Merge, a    *)
+(* mismatch leaves the destination alone, empty payload <=> empty message, *)
+(* reading never changes the Any, UnmarshalNew returns the named type.     *)
 (***************************************************************************)
 EXTENDS StructValCases, Json, IOUtils
 
@@ -25,7 +42,7 @@ EXTENDS StructValCases, Json, IOUtils
 \* reaches a payload whose sort depends on the tag.
 FieldOrder == [op |-> 0, g |-> 0, k |-> 0, t |-> 0, c |-> 0, ok |-> 0, x |-> 0, v |-> 0, p |-> 0, d |-> 0, r |-> 0, j |-> 0, m |-> 0]
 
-CONSTANTS Tier, Depth, UrlLen, Seeds
+CONSTANTS Tier, Depth, UrlLen, Seeds, BoxOps, BoxRounds
 
 Lit(ds) == [i \in 1..Len(ds) |-> ds[i] + 48]
 Neg(l) == <<cMinus>> \o l
@@ -74,14 +91,83 @@ Names == {<<97>>, <<98>>, <<97, cDot, 98>>, <<97, 98>>, <<97, cDot, 98, cDot, 97
 Registered == <<(<<97>>), (<<98>>), (<<97, cDot, 98>>), (<<97, cDot, 98, cDot, 97>>)>>       \* "ab" is a name nobody registered
 UrlAlphabet == {97, 98, cDot, cSlash}
 
-Types == JsonDeserialize(IOEnv.WKT_TYPES).types
+Types == BoxTypes
 
+\* ---------------------------------------------------------------- the Any machine: what TLC explores
+BoxN == Len(BoxTypes)
+Quick == Tier = "quick"
+\* <<a, b>>: the name of type a is a proper suffix of the name of type b (hybrid.goproto.proto.test3.TestAllTypes ends in
+\* goproto.proto.test3.TestAllTypes); MessageIs must tell them apart by the '/' in front of the name
+SuffixPairs == {ab \in (1..BoxN) \X (1..BoxN) : ab[1] # ab[2] /\ HasSuffix(BoxTypes[ab[2]], BoxTypes[ab[1]])}
+Partners(t) == {ab[2] : ab \in {x \in SuffixPairs : x[1] = t}} \cup {ab[1] : ab \in {x \in SuffixPairs : x[2] = t}}
+MinOf(S) == CHOOSE i \in S : \A j \in S : i <= j
+FirstPair == IF SuffixPairs = {} THEN {} ELSE LET a == MinOf({ab[1] : ab \in SuffixPairs}) IN {a, MinOf(Partners(a))}
+FirstOf(S) == IF S = {} THEN {} ELSE {MinOf(S)}
+\* thorough: the first type of every slot class and the first suffix pair; quick: the pair, the first type with required
+\* fields and a singular slot, the first type with a singular and a repeated slot
+Reps == IF Quick THEN FirstPair \cup FirstOf({i \in 1..BoxN : BoxFacts[i].q /\ BoxFacts[i].s})
+                               \cup FirstOf({i \in 1..BoxN : BoxFacts[i].r /\ BoxFacts[i].s /\ ~BoxFacts[i].q})
+        ELSE UNION {FirstOf({i \in 1..BoxN : BoxFacts[i] = f}) : f \in {BoxFacts[i] : i \in 1..BoxN}} \cup FirstPair
+OtherOf(t) == (t % BoxN) + 1
+
+Full1(f) == BoxC(IF f.s THEN 1 ELSE 0, IF f.r THEN <<1>> ELSE <<>>, IF f.q THEN 1 ELSE 0, 1)
+Full2(f) == BoxC(IF f.s THEN 2 ELSE 0, IF f.r THEN <<2, 1>> ELSE <<>>, IF f.q THEN 1 ELSE 0, IF f.s \/ f.r THEN 0 ELSE 2)
+Contents(f) == {BoxEmpty, Full1(f), Full2(f)} \cup (IF f.q THEN {[Full1(f) EXCEPT !.q = 0], BoxC(0, <<>>, 1, 0)} ELSE {})
+Fills(f) == IF Quick THEN {BoxEmpty, Full1(f)} ELSE Contents(f)
+Parts(t) == IF BoxFacts[t].q THEN BOOLEAN ELSE {FALSE}
+Srcs(T) == {T, OtherOf(T)} \cup Partners(T)
+SFill(c) == BoxStepRec("fill", 0, c, BoxOpt(FALSE, FALSE), <<>>)
+SNew(t, c, part) == BoxStepRec("new", t, c, BoxOpt(FALSE, part), <<>>)
+SUrl(u) == BoxStepRec("url", 0, BoxEmpty, BoxOpt(FALSE, FALSE), u)
+STo(merge, part) == BoxStepRec("to", 0, BoxEmpty, BoxOpt(merge, part), <<>>)
+SNewMsg(merge, part) == BoxStepRec("unew", 0, BoxEmpty, BoxOpt(merge, part), <<>>)
+NewSteps(T) == {SNew(T, c, pt) : c \in Contents(BoxFacts[T]), pt \in Parts(T)}
+               \cup {SNew(t, c, TRUE) : t \in Srcs(T) \ {T}, c \in {BoxEmpty}} \cup {SNew(t, Full1(BoxFacts[t]), TRUE) : t \in Srcs(T) \ {T}}
+AnyQ(T) == \E t \in Srcs(T) : BoxFacts[t].q
+OpSteps(T) == {STo(m, pt) : m \in BOOLEAN, pt \in Parts(T)}
+              \cup {SNewMsg(m, pt) : m \in (IF Quick THEN {FALSE} ELSE BOOLEAN), pt \in (IF AnyQ(T) THEN BOOLEAN ELSE {FALSE})}
+xAB == <<97, cDot, 98, cSlash, 99, cSlash>>                                                   \* "a.b/c/"
+UrlVariants(n) == {n, <<cSlash>> \o n, xAB \o n, StdPrefix \o <<120>> \o n, StdPrefix \o <<120, cDot>> \o n,
+                   StdPrefix \o n \o <<cSlash>>, StdPrefix \o n \o <<cDot>>, <<>>}
+UrlSteps(T, st) == IF st.pt = 0 THEN {}
+                   ELSE {SUrl(u) : u \in UrlVariants(BoxTypes[st.pt])} \cup {SUrl(AnyUrlOf(BoxTypes[t])) : t \in Partners(st.pt)}
+
+\* sweeps: whole histories, one per registered type and kind / per suffix pair and direction
+SweepType(i, k) ==
+  LET f == BoxFacts[i] IN
+  IF k = 1 THEN <<SFill(Full1(f)), SNew(i, BoxEmpty, TRUE), STo(FALSE, FALSE), SFill(Full1(f)), STo(FALSE, TRUE), SNewMsg(FALSE, FALSE)>>
+  ELSE <<SFill(Full1(f)), SNew(i, Full2(f), FALSE), STo(TRUE, FALSE), STo(FALSE, FALSE), SNewMsg(FALSE, FALSE),
+         SNew(i, [Full1(f) EXCEPT !.q = 0], TRUE), STo(FALSE, FALSE), STo(TRUE, TRUE), SNew(i, BoxEmpty, TRUE), STo(TRUE, TRUE)>>
+SweepPair(T, t) ==
+  <<SFill(Full1(BoxFacts[T])), SNew(t, BoxEmpty, TRUE), STo(FALSE, TRUE), SNewMsg(FALSE, TRUE), SUrl(BoxTypes[t]), STo(FALSE, TRUE),
+    SNew(T, BoxEmpty, TRUE), SUrl(BoxTypes[T]), STo(FALSE, TRUE)>>
+\* quick: the empty payload into a dirty destination for every type; thorough: also populated payloads and Merge
+Sweeps == {<<i, SweepType(i, k)>> : i \in 1..BoxN, k \in (IF Quick THEN {1} ELSE {1, 2})}
+          \cup {<<ab[1], SweepPair(ab[1], ab[2])>> : ab \in SuffixPairs} \cup {<<ab[2], SweepPair(ab[2], ab[1])>> : ab \in SuffixPairs}
+FinalState(T, h) == BoxResults(T, h)[Len(h)].st
+
+BoxLawsFinal(T, h, st, rs) == BoxLawsOf(T, h, rs) /\ st = rs[Len(h)].st /\ LastIndexOf(st.url, cSlash) = LastIndexOfDef(st.url, cSlash)
+\* pick of a box state: <<T, history, machine state, round, ops done in this round>>
 VARIABLES kind, url, pick
 Init == kind = "init" /\ url = <<>> /\ pick = <<>>
+BoxGo(T, h, st, rnd, ops, p) ==
+  /\ BoxDefined(st, T, p)
+  /\ pick' = <<T, Append(h, p), BoxStep(st, T, p).st, rnd, ops>> /\ kind' = "box" /\ url' = url
+BoxNext ==
+  \/ (kind = "init" /\ \E T \in Reps : \E c \in Fills(BoxFacts[T]) : BoxGo(T, <<>>, BoxInit, 1, 0, SFill(c)))
+  \/ (kind = "box" /\
+      LET T == pick[1]  h == pick[2]  st == pick[3]  rnd == pick[4]  ops == pick[5]  last == h[Len(h)].a IN
+      \/ (last = "fill" /\ \E p \in NewSteps(T) : BoxGo(T, h, st, rnd, 0, p))
+      \/ (last \in {"to", "unew"} /\ rnd < BoxRounds /\ \E p \in NewSteps(T) : BoxGo(T, h, st, rnd + 1, 0, p))
+      \/ (last = "new" /\ rnd = 1 /\ (Quick => st.pc \in {BoxEmpty, Full1(BoxFacts[T])} /\ h[1].c = Full1(BoxFacts[T]))
+                       /\ \E p \in UrlSteps(T, st) : BoxGo(T, h, st, rnd, 0, p))
+      \/ (last \in {"new", "url", "to", "unew"} /\ ops < BoxOps /\ \E p \in OpSteps(T) : BoxGo(T, h, st, rnd, ops + 1, p)))
 Next ==
   \/ (kind \in {"init", "url"} /\ Len(url) < UrlLen /\ \E c \in UrlAlphabet : url' = Append(url, c) /\ kind' = "url" /\ pick' = pick)
   \/ (kind = "init" /\ \E v \in AllGo : pick' = <<v>> /\ kind' = "val" /\ url' = url)
   \/ (kind = "init" /\ \E i \in 1..Len(Types), s \in Seeds : pick' = <<i, s>> /\ kind' = "type" /\ url' = url)
+  \/ (kind = "init" /\ \E sw \in Sweeps : pick' = <<sw[1], sw[2], FinalState(sw[1], sw[2]), 0, 0>> /\ kind' = "sweep" /\ url' = url)
+  \/ BoxNext
 
 \* ---- laws
 RECURSIVE AllFinite(_)
@@ -100,6 +186,7 @@ ValLaws ==
               /\ (pj.ok => ValFromJ(pj.r) = Ok(r.r)))             \* and the JSON parses back to the same Value
   /\ (Normal(v) => r.ok /\ AsInterface(r.r) = v)                  \* identity on normal forms
 UrlLaws ==
+  /\ LastIndexOf(url, cSlash) = LastIndexOfDef(url, cSlash) /\ LastIndexOf(url, cDot) = LastIndexOfDef(url, cDot)
   /\ \A n \in Names : MessageIs(url, n) = (MessageName(url) = n)
   /\ (MessageName(url) # <<>> => MessageIs(url, MessageName(url)))
   /\ \A n \in Names : MessageIs(url \o <<cSlash>> \o n, n) /\ MessageName(url \o <<cSlash>> \o n) = n
@@ -107,7 +194,12 @@ UrlLaws ==
   /\ \A n \in Names : Resolves(AnyUrlOf(n), {n})
 TypeLaws ==
   LET t == Types[pick[1]]  u == AnyUrlOf(t) IN IsFullName(t) /\ MessageName(u) = t /\ MessageIs(u, t) /\ Resolves(u, {t})
-Laws == CASE kind = "val" -> ValLaws [] kind = "url" -> UrlLaws [] kind = "type" -> TypeLaws [] OTHER -> TRUE
+BoxHistLaws == BoxLawsFinal(pick[1], pick[2], pick[3], BoxResults(pick[1], pick[2]))
+\* the table itself: names are full names in ascending order (the driver and the harness index it the same way), and every
+\* type can be made dirty
+TableLaws == \A i \in 1..BoxN : IsFullName(BoxTypes[i]) /\ (i < BoxN => StrLess(BoxTypes[i], BoxTypes[i + 1])) /\ Full1(BoxFacts[i]) # BoxEmpty
+Laws == CASE kind = "val" -> ValLaws [] kind = "url" -> UrlLaws [] kind = "type" -> TypeLaws
+          [] kind \in {"box", "sweep"} -> BoxHistLaws [] kind = "init" -> TableLaws [] OTHER -> TRUE
 
 OtherType(i) == Types[(i % Len(Types)) + 1]
 Emit ==
@@ -116,5 +208,8 @@ Emit ==
                                          PrintT("@@" \o ToJson(c @@ [exp |-> Expect(c)]))
     [] kind' = "type" -> LET c == [op |-> "anyrt", type |-> Types[pick'[1]], other |-> OtherType(pick'[1]), seed |-> pick'[2]] IN
                          PrintT("@@" \o ToJson(c @@ [exp |-> Expect(c)]))
+    [] kind' = "box" /\ pick'[2][Len(pick'[2])].a \notin {"to", "unew"} -> TRUE    \* a proper prefix of the histories that follow
+    [] kind' \in {"box", "sweep"} -> LET c == [op |-> "anybox", T |-> pick'[1], tn |-> BoxTypes[pick'[1]], steps |-> pick'[2]] IN
+                                     PrintT("@@" \o ToJson(c @@ [exp |-> Expect(c)]))
     [] OTHER -> TRUE
 =============================================================================
